@@ -382,7 +382,7 @@ fn span_case(rng: &mut Rng8) -> Case {
 
 pub fn run(cfg: &Cfg) -> Report {
     let shards = 64;
-    let per = cfg.n(150, 3000);
+    let per = cfg.n(1200, 20000);
     let reports = par_map(shards, |sh| {
         let mut rng = rng_for(cfg.seed, "C13", sh as u64);
         let mut rep = Report::new();
